@@ -31,7 +31,7 @@ def _new_topic(rng, nb, np_=None):
     }
 
 
-def gen_scenario(rng, idx, force=None, bias=None):
+def gen_scenario(rng, idx, force=None, bias=None, crash_p=0.01):
     """Returns (case line, tags).  tags: set of fault / topology-change kinds present in the scenario.
     bias="topics": topic-set trajectories (more vanishing / re-appearing topics, more refresh faults and ticks)."""
     tags = set()
@@ -46,7 +46,7 @@ def gen_scenario(rng, idx, force=None, bias=None):
     ncyc = rng.randint(1, 6)
     weird = rng.random() < 0.04
     crash_cycle = None
-    if force == "crash" or (force is None and rng.random() < 0.03):
+    if force == "crash" or (force is None and rng.random() < crash_p):
         crash_cycle = rng.randrange(0, ncyc)
     cycles = []
     for c in range(ncyc):
@@ -376,13 +376,13 @@ def run_check(chk, failed, which):
     pid = chk.pid
     project = project_c11 if which == 11 else project_c12
     bias = None if which == 11 else "topics"
-    n = (900 if which == 11 else 700) if not chk.thorough else 40000
+    n = (5000 if which == 11 else 4000) if not chk.thorough else 150000
     cases, tags = [], []
     for ln in C.read_corpus(pid):
         cases.append(ln)
         tags.append({"corpus"})
     for i in range(n):
-        ln, tg = gen_scenario(chk.rng, i, bias=bias, force=("crash" if (which == 11 and i % 60 == 7) else None))
+        ln, tg = gen_scenario(chk.rng, i, bias=bias, crash_p=(0.012 if which == 11 else 0.003))
         cases.append(ln)
         tags.append(tg)
     chk.rule = (
@@ -391,7 +391,7 @@ def run_check(chk, failed, which):
         "Leader() failure, GetAvailableOffsets failure, per-partition KError; between cycles: leader change/loss/gain, "
         "topics appearing / vanishing / re-appearing / losing all leaders, partitions added; metadata ticker per the case"
         + ("; C12 bias: topic-set trajectories (vanish 0.25, re-appear 0.5, tick 0.7, refresh faults 0.2)" if which == 12 else
-           "; every 60th scenario has an ErrNoError answer without offsets (child process, CRASH compared)")
+           "; 1.2% of the scenarios script an ErrNoError answer without offsets (child process, CRASH compared)")
         + ". non-trivial = at least one fault or topology change in the scenario (tag set non-empty); distinct by the case line")
     impl, model, mism = chk.differential("cluster", "cluster", "TestVerifProbeCluster", cases,
                                          name="scn%d" % which, project=project)
